@@ -872,6 +872,7 @@ extern const SimdTblTbx simdTblTbx[2];
 extern const InstNameIndex _inst_name_index;
 extern const char _inst_name_string_table[];
 extern const uint32_t _inst_name_index_table[];
+extern const uint16_t _inst_name_sorted_id_table[];
 #endif // !ASMJIT_NO_TEXT
 
 } // {InstDB}
